@@ -122,12 +122,15 @@ def run(chk):
                 documented = True
             if fi.name.startswith("__") and fi.name in ("__init__", "__setitem__", "__del__", "__iadd__"):
                 documented = True
+            private = fi.name.startswith("_") and not fi.name.startswith("__")
             lvl, why = s.eff.get(i, (E.NONE, None))
             key = f"{label}[{p.arg}]" + (f"[inplace={inplace}]" if inplace is not None else "")
             n_pairs += 1
-            if documented or lvl <= E.GAUGE:
-                chk.ob("effect-bound", key, True, fi.where, E.LEVEL[lvl] + (" (documented mutator)" if documented and lvl > E.GAUGE else ""), "<= GAUGE",
-                       line=fi.node.lineno)
+            if documented or private or lvl <= E.GAUGE:
+                # the property quantifies over the public operations: what a private helper does to its parameter is judged where a public function hands it one of its
+                # own inputs (the effect is propagated to that caller's parameter by the engine)
+                chk.ob("effect-bound", key, True, fi.where, E.LEVEL[lvl] + ((" (documented mutator)" if documented else " (private helper: judged through its public callers)") if lvl > E.GAUGE else ""),
+                       "<= GAUGE", line=fi.node.lineno)
             else:
                 for w in s.origins(i):
                     by_origin.setdefault(w.key(), []).append((key, fi, w))
